@@ -186,10 +186,16 @@ func (l *queryLog) handleQueryLogConfig(w http.ResponseWriter, r *http.Request) 
 		return
 	}
 
-	defer l.conf.ConfigModified()
+	// l.conf is replaced below, so read the callback under the lock as well,
+	// and call it once the lock is released, since it reads the configuration
+	// back.
+	var configModified func()
+	defer func() { configModified() }()
 
 	l.confMu.Lock()
 	defer l.confMu.Unlock()
+
+	configModified = l.conf.ConfigModified
 
 	conf := *l.conf
 	if newConf.Enabled != aghalg.NBNull {
@@ -250,10 +256,16 @@ func (l *queryLog) handlePutQueryLogConfig(w http.ResponseWriter, r *http.Reques
 		return
 	}
 
-	defer l.conf.ConfigModified()
+	// l.conf is replaced below, so read the callback under the lock as well,
+	// and call it once the lock is released, since it reads the configuration
+	// back.
+	var configModified func()
+	defer func() { configModified() }()
 
 	l.confMu.Lock()
 	defer l.confMu.Unlock()
+
+	configModified = l.conf.ConfigModified
 
 	conf := *l.conf
 
